@@ -48,6 +48,9 @@ CLAIMED = {
  "C13": ("reference-model monitors: exact Gaussian moments, a 30-digit Gauss-Hermite rule applied to the documented densities, analytic Bernoulli marginal, mpmath log Phi; mutation hook on the quadrature's input",
          "Runtime monitoring of the real GaussHermiteQuadrature1D / likelihood / log_normal_cdf functions: monomials and random polynomials of every degree < 2*num_locs for num_locs in {1..40} (set through settings) against exact Gaussian moments over mean/variance regimes, batch shapes and distribution types (each distribution object integrated twice; a hook asserts forward() does not mutate it); expected_log_prob / log_marginal of Laplace, Student-t, Beta, Bernoulli against the exact rule recomputed by Golub-Welsch in mpmath on the documented densities; Bernoulli marginal vs Phi(m/sqrt(1+v)); conditional-distribution parameters; log_normal_cdf and its gradient on a 10k-point grid plus branch borders vs mpmath; truncation error at 64 nodes below that at 8. Decides executed cells only.",
          "Laplace/Student-t scale is sqrt(noise) (the property's reading of the docstrings); the Beta docstring/code disagreement is a recorded finding.", "DESIGN.md §4 C13"),
+ "C14": ("post-condition monitors on every variational distribution's forward() and on the strategies' calls + dense closed-form push of q(u) through p(f|u)",
+         "Runtime monitoring: every variational distribution's real forward() is wrapped (returned q(u) must be the mean/covariance its parameters encode: Cholesky with the upper triangle ignored, mean-field, delta, natural, tril-natural); for VariationalStrategy / Unwhitened / CIQ (tight quadrature) x five distributions x batch patterns of inducing points, parameters and data the eval-mode q(f) (full covariance), training-mode mean/variance and kl_divergence() (read after a training forward and in eval mode) are compared with the dense closed form built from captured Z, kernel, mean, jitter and q(u) under the two-reference jitter rule; batch-decoupled, grid-interpolation (own cubic weights), LMC and independent-multitask mixing (dense and task_indices forms), q(u)=p(u) => prior & KL=0, whitened == unwhitened for the same q(u). Decides executed cells only; OrthogonallyDecoupled / NNVariationalStrategy are not exercised.",
+         "Dense torch algebra trusted; whitening factor convention: Cholesky (standard, batch-decoupled) or symmetric square root (CIQ).", "DESIGN.md §4 C14"),
 }
 NOT_YET = "check not built yet in this round (see DESIGN.md §9 build order); not claimed until its monitor exists and is silent on the unchanged tree"
 
